@@ -286,7 +286,11 @@ func (e *Exec) snapshotDraws(m Model) []Draw {
 }
 
 func (e *Exec) recordViolation(kind, label, detail string, m Model) {
-	v := &Violation{Kind: kind, Label: label, Func: e.where(), Detail: detail, Model: m,
+	fn := e.where()
+	if kind == "panic" && e.panicFn != "" {
+		fn = e.panicFn
+	}
+	v := &Violation{Kind: kind, Label: label, Func: fn, Detail: detail, Model: m,
 		Draws: e.snapshotDraws(m), Decs: append([]int64(nil), e.decisions...), Harness: e.h.Name}
 	e.viol = append(e.viol, v)
 }
